@@ -1,9 +1,9 @@
 SPECIFICATION Spec
 CONSTANTS
   NQ = 2
-  Depth = 3
-  MCGates = {"h", "x", "y", "s", "t", "tdg", "v", "rx", "ry", "rz", "cx", "cy", "cz", "ch", "crz", "zz_max", "zz_phase", "phased_x", "qrz"}
-  MCTs <- MCTsDefault
+  Depth = 2
+  MCGates = {"h", "s", "t", "v", "rx", "rz", "cx", "ch", "crz", "zz_phase", "phased_x"}
+  MCTs <- MCTsQuick
 INVARIANT TypeOK
 INVARIANT NormPreserved
 INVARIANT BranchWeights
